@@ -271,6 +271,7 @@ func ruleC19(prog *Program, rep *Report) {
 	ruleMatchNoLen(prog, rep)
 	ruleOkDrop(prog, rep, "alt")
 	ruleOperandOrder(prog, rep, "alt")
+	ruleFloatNarrow(prog, rep, "alt")
 }
 
 func isLenCall(e ast.Expr) bool {
